@@ -572,6 +572,19 @@ class HistIO(Hist):
                     self.ev['out'] = 'tolerated:FileExistsError'
                     return None
                 raise
+            if rng.random() < 0.06:
+                # another tool appended comments to the saved file, the last of them in Latin-1: the file is no longer
+                # valid UTF-8 from some point (beyond the first read chunk) on.  Refusing it is fine; a circuit that is
+                # returned has to be the one the text denotes (comments denote nothing)
+                key = simfs._resolve(str(path))
+                simfs.FS.files[key] = simfs.FS.files[key] + b'\n' + b'\n'.join(b'# ' + b'pad ' * 30 for _ in range(80)) + b'\n# caf\xe9 cr\xe8me\n'
+                self.res.stats.probes.bump('fs:file-with-undecodable-comment-appended')
+                try:
+                    return self.Circuit.from_bench_file(path)
+                except Exception as e:  # noqa
+                    self.res.stats.probes.bump(f'fs:undecodable-file-refused:{exc_name(e)}')
+                    self.ev['out'] = f'tolerated:{exc_name(e)}'
+                    return None
             back = self.Circuit.from_bench_file(path)
             if rng.random() < 0.4:
                 # the same file is overwritten with another circuit - through a Path object or another spelling of
